@@ -1,21 +1,24 @@
-(* C17 - property theorems only; each is closed by lemmas of Lemmas.v / Refuted.v.
+(* C17 - property theorems only; each is closed by lemmas of Lemmas.v.
    M ranges over every module description (any parameters over the modelled datatypes), ops over every history of
    operations, f over every fault (crash before / crash after / OSError at open, any write, close, rename, remove),
-   n over every chunk count of json.dump, d over every disk. *)
+   n over every chunk count of json.dump, d over every disk.
+   All four defects found on the snapshot are repaired in /repo (b610a07, 6518f2a, 66c61e0): there is no Refuted.v any
+   more and no theorem carries an exception for a finding. *)
 From Coq Require Import List Arith ZArith NArith Bool Lia.
 Import ListNotations.
-Require Import FV.Base.Util FV.Gen.C17 FV.C17.Model FV.C17.Lemmas FV.C17.Refuted.
+Require Import FV.Base.Util FV.Gen.C17 FV.C17.Model FV.C17.Lemmas.
 
 (* obligations on the facts regenerated from /repo (Gen/C17.v): the code has the shape the model assumes *)
 Theorem C17_source_facts :
-  change_detection = true /\ pdata_assigned_before_write = true /\ writes_go_to_tmp = true /\
+  change_detection = true /\ pdata_assigned_after_rename = true /\ writes_go_to_tmp = true /\
   only_rename_writes_target = true /\ rename_after_closed_with_block = true /\ remove_tmp_in_finally = true /\
-  unreadable_file_is_empty = true /\ entries_imported_individually = true /\ cfg_precedes_file = true /\
+  unreadable_file_is_empty = true /\ nonobject_document_is_unreadable = true /\
+  entries_imported_individually = true /\ entries_validated_and_exportable = true /\ cfg_precedes_file = true /\
   given_set_for_configured_values = true /\ save_deferred_while_writes_pending = true /\
   init_saves_after_loading = true /\ callback_exceptions_swallowed = true /\
   array_import_checks_kind_and_length = true /\ tuple_import_checks_kind_and_length = true /\
   struct_import_admits_missing_optional = true /\ scaled_import_integers_only = true /\
-  blob_import_strict_base64 = true /\ int_and_blob_import_without_limits = true.
+  blob_import_strict_base64 = true.
 Proof. repeat split; reflexivity. Qed.
 
 (* one save, any fault at any file-system operation: the stored file afterwards (that is also: at the crash point)
@@ -30,7 +33,7 @@ Theorem C17_crash_atomic_save : forall f data n d,
   (f = None -> sres_of s = SOk).
 Proof.
   intros f data n d s. split; [apply save_file_target|]. split; [|split].
-  - intros H. destruct (save_file_outcome f data n d) as [H1 H2|H1 H2 H3|o H1 H2 H3]; auto; unfold s in H; congruence.
+  - intros H. destruct (save_file_outcome f data n d) as [H1 H2 H3|H1 H2 H3|o H1 H2 H3]; auto; unfold s in H; congruence.
   - apply save_file_err.
   - intros ->. apply save_file_nofault.
 Qed.
@@ -46,42 +49,48 @@ Theorem C17_never_partial : forall M ops s,
   Forall op_ok ops -> content_ok (target (dk s)) -> content_ok (target (dk (run M ops s))).
 Proof. intros; now apply run_target_ok. Qed.
 
-(* FULL STATEMENT (refuted, see C17_refuted_retry): after any history a saveParameters() without fault on a module
-   without pending writes leaves the current snapshot on disk.
-   PROVED: the same for every history in which, since the module was created, no save failed with an OSError
-   and nobody else replaced the file (crashes at any point, any history before the creation are allowed). *)
-Theorem C17_retry_except_failed_save : forall M pre cfg f0 n0 ops n m data,
-  no_err f0 -> Forall clean_op ops ->
+(* persistentData is what the module believes to be on disk: the belief is right after every operation with every
+   fault, I/O errors included (this is the repaired b610a07: a failed save is not considered done) *)
+Theorem C17_belief_matches_disk : forall M pre cfg f0 n0 ops,
+  Forall own_op ops -> sync (run M (pre ++ OInit cfg f0 n0 :: ops) st0).
+Proof.
+  intros M pre cfg f0 n0 ops Hc. unfold run. rewrite fold_left_app. simpl. apply run_sync; auto. apply do_init_sync.
+Qed.
+
+(* RETRY, full statement (was C17_retry_except_failed_save with the guard "no save failed with an OSError"): after any
+   history since the creation of the module - saves failing with OSError at any operation included - in which nobody
+   else replaced the file, a saveParameters() without fault on a module without pending writes leaves a complete
+   document equal (python ==) to the current snapshot on disk *)
+Theorem C17_retry : forall M pre cfg f0 n0 ops n m data,
+  Forall own_op ops ->
   let s := run M (pre ++ OInit cfg f0 n0 :: ops) st0 in
   md s = Some m -> wdict m = [] -> snapshot_of M (vals m) = Some data ->
   let '(d', m', o) := save_parameters M None n (dk s) m in
   (data = [] \/ holds d' data) /\ in_sync d' m' /\ (o = SPNothing \/ o = SPWrote SOk).
 Proof.
-  intros M pre cfg f0 n0 ops n m data Hf Hc s Hm Hw Hd.
+  intros M pre cfg f0 n0 ops n m data Hc s Hm Hw Hd.
   apply save_reaches_disk; auto.
-  assert (S : sync s).
-  { unfold s, run. rewrite fold_left_app. simpl. apply run_sync; auto. now apply do_init_sync. }
+  pose proof (C17_belief_matches_disk M pre cfg f0 n0 ops Hc) as S. fold s in S.
   unfold sync in S. now rewrite Hm in S.
 Qed.
 
-Theorem C17_refuted_retry_witness : exists M ops n m data,
-  md (run M ops st0) = Some m /\ wdict m = [] /\ snapshot_of M (vals m) = Some data /\
-  data = [(0, VInt 5)] /\ target (dk (run M ops st0)) = Some (CW [(0, VInt 1)] n n) /\
-  step M (run M ops st0) (OSave None n) = (run M ops st0, ROk).
-Proof. exact C17_refuted_retry. Qed.
-
-(* FULL STATEMENT (refuted, see C17_refuted_nonobject / C17_refuted_outdated_shape): start-up succeeds for every
-   stored file.
-   PROVED: it succeeds for every file that is missing, unreadable or an object, provided the values obtained from
-   it can be exported again (the guard excluding the outdated-shape finding). *)
-Theorem C17_startup_except_findings : forall M cfg n d,
-  (forall c, target d = Some c -> parse c <> PJOther) ->
-  (forall raw loaded, load_file M d = LOk raw loaded -> snapshot_of M (vals (init_state M cfg raw loaded)) <> None) ->
+(* START-UP, full statement (was C17_startup_except_findings with two guards): whatever the stored file is - missing,
+   truncated, garbage, a JSON document that is not an object, entries of any kind, shape or range - the module is
+   created, provided the configured values and defaults themselves are storable *)
+Theorem C17_startup : forall M cfg n d, base_ok M cfg ->
   snd (do_init M cfg None n d) = ROk /\ md (fst (do_init M cfg None n d)) <> None.
 Proof. exact startup_ok. Qed.
 
+(* every value taken from the stored file is the validated import of a stored entry of a persistent parameter and
+   can be stored again (repaired 66c61e0: out-of-range and mis-shaped entries are not loaded) *)
+Theorem C17_loaded_values_valid : forall M d raw loaded k v,
+  load_file M d = LOk raw loaded -> aget k loaded = Some v ->
+  exists p j x, nth_error M k = Some p /\ persistent p = true /\
+    import (p_dt p) j = Some x /\ validate (p_dt p) x = Some v /\ export (p_dt p) v <> None.
+Proof. exact loaded_values_good. Qed.
+
 (* entries are treated one by one: a usable entry is restored whatever else the file contains, an entry that is
-   unknown, not persistent or not importable changes nothing *)
+   unknown, not persistent, not importable, not valid or not storable changes nothing *)
 Theorem C17_tolerant_load : forall M raw k,
   (forall j v, NoDup (map fst raw) -> In (k, j) raw -> usable M k j = Some v ->
      aget k (fold_left (load_entry M) raw []) = Some v) /\
@@ -103,7 +112,7 @@ Theorem C17_precedence : forall M cfg raw loaded i p, nth_error M i = Some p ->
 Proof. exact init_precedence. Qed.
 
 (* a module re-created from the file a save has written gets every persistent parameter that is not configured
-   back to the same value, for every datatype whose export/import invert each other on that value *)
+   back to the same value, for every datatype whose export and reading of entries invert each other on that value *)
 Theorem C17_roundtrip : forall M vs data n cfg i p v,
   codec_ok M vs -> snapshot_of M vs = Some data ->
   nth_error M i = Some p -> persistent p = true -> aget i vs = Some v -> aget i cfg = None ->
@@ -111,12 +120,13 @@ Theorem C17_roundtrip : forall M vs data n cfg i p v,
     aget i (vals (init_state M cfg raw loaded)) = Some v.
 Proof. exact roundtrip_module. Qed.
 
-(* the inversion law holds for the scalar datatypes (int, bool, enum, string, double) *)
+(* the inversion law holds for the scalar datatypes (int, bool, enum, string, double) on every valid value *)
 Theorem C17_codec_scalar : forall d v j,
-  scalar d = true -> valid_scalar d v = true -> export d v = Some j -> import d j = Some v.
+  scalar d = true -> validate d v = Some v -> export d v = Some j -> usable_dt d j = Some v.
 Proof. exact codec_scalar. Qed.
 
-(* non-vacuity: a crash after the rename keeps the new snapshot, which is loaded by the next start-up *)
+(* non-vacuity: a crash after the rename keeps the new snapshot, which is loaded by the next start-up; an I/O error
+   at the rename is retried by the next save; a non-object document and an out-of-range entry are ignored *)
 Example C17_demo :
   let M := [{| p_dt := DInt (-1000) 1000; p_pers := 2; p_hasw := false; p_default := VInt 1 |};
             {| p_dt := DStr 0 5 false; p_pers := 1; p_hasw := true; p_default := VStr [97%N] |}] in
@@ -126,13 +136,30 @@ Example C17_demo :
   target (dk s) = Some (CW [(0, VInt 7); (1, VStr [98%N])] 5 5).
 Proof. vm_compute. split; reflexivity. Qed.
 
+Example C17_demo_retry :
+  let M := [{| p_dt := DInt (-1000) 1000; p_pers := 2; p_hasw := false; p_default := VInt 1 |}] in
+  let s := run M [OInit [] None 3; OSet 0 (VInt 5) (Some (FRename, KErr)) 3] st0 in
+  target (dk s) = Some (CW [(0, VInt 1)] 3 3) /\
+  target (dk (fst (step M s (OSave None 3)))) = Some (CW [(0, VInt 5)] 3 3).
+Proof. vm_compute. split; reflexivity. Qed.
+
+Example C17_demo_ignored :
+  let M := [{| p_dt := DInt 0 10; p_pers := 1; p_hasw := false; p_default := VInt 1 |}] in
+  option_map vals (md (fst (do_init M [] None 3 {| target := Some (CForeign PJOther); tmp := None |}))) = Some [(0, VInt 1)] /\
+  option_map vals (md (fst (do_init M [] None 3 {| target := Some (CForeign (PJObj [(0, VInt 50)])); tmp := None |})))
+    = Some [(0, VInt 1)] /\
+  option_map vals (md (fst (do_init M [] None 3 {| target := Some (CForeign (PJObj [(0, VInt 5)])); tmp := None |})))
+    = Some [(0, VInt 5)].
+Proof. vm_compute. repeat split; reflexivity. Qed.
+
 Print Assumptions C17_source_facts.
 Print Assumptions C17_crash_atomic_save.
 Print Assumptions C17_crash_atomic_step.
 Print Assumptions C17_never_partial.
-Print Assumptions C17_retry_except_failed_save.
-Print Assumptions C17_refuted_retry_witness.
-Print Assumptions C17_startup_except_findings.
+Print Assumptions C17_belief_matches_disk.
+Print Assumptions C17_retry.
+Print Assumptions C17_startup.
+Print Assumptions C17_loaded_values_valid.
 Print Assumptions C17_tolerant_load.
 Print Assumptions C17_precedence.
 Print Assumptions C17_roundtrip.
